@@ -15,6 +15,12 @@
 //	        been applied completely; generation numbers increase; no request of a generation is sent
 //	        before every request of the previous generation has returned
 //	error   once Flush/FlushWait has reported an error, Commit fails
+//	progress  after a reported flush error the application goes on (FlushWait again, then Commit or Rollback); a
+//	        Flush / FlushWait / Commit / Rollback that has not returned although every injected hold has been
+//	        released, no RPC of the client is in flight and none has been sent for a whole observation window
+//	        (the driver's own bookkeeping over the RPC log) is re-run alone in a fresh universe with a ten-fold
+//	        window; blocked again in the same call and state = blocked for good (nothing is left that could wake
+//	        it up): the transaction neither fails nor cleans up.  A single, non-reproduced sighting is inconclusive
 //	truth   after the end of the transaction and drain (MvccGetByKey + lock scan on the un-recorded store):
 //	        Commit()==nil => every written key carries exactly the latest write, all with the commit ts of
 //	        the primary's Commit request, and no lock of the transaction is left anywhere;
@@ -26,6 +32,7 @@ import (
 	"context"
 	"fmt"
 	"math/rand"
+	"runtime"
 	"sort"
 	"strings"
 	"sync"
@@ -128,6 +135,9 @@ type spec struct {
 	// BGFaults: what happens to the n-th BufferBatchGet RPC of the transaction (reads of flushed keys); a split
 	// is placed between two of the requested keys, so that the batch has to be re-grouped by region
 	BGFaults []fault `json:"buffer_batch_get_rpc_faults"`
+	// AfterFlushErr: what the application calls between the reported flush error and the end of the transaction
+	// ("" nothing, "flushwait")
+	AfterFlushErr string `json:"after_flush_error,omitempty"`
 	ConflictKey string            `json:"conflict_key,omitempty"`
 	ResolveErr  int               `json:"resolve_rpc_fault"` // n-th ResolveLock of the txn gets a fault (-1 none)
 	ResolveKind int               `json:"resolve_rpc_fault_kind"`
@@ -302,6 +312,57 @@ func gen(rng *rand.Rand, id, prefixNo int) *spec {
 	}
 	genCommitFault(rng, s)
 	return s
+}
+
+// genFlushFails: a transaction that is told by Flush (not by FlushWait) that an earlier flush failed, and then goes
+// on: a generated program (layout, faults, reads as drawn) preceded by writes with forced flushes back to back, the
+// first of which fails in the background - a conflicting committed write under its key (definite error), or every
+// Flush RPC lost until the error has been reported.  Own random stream; the other programs do not depend on it.
+func genFlushFails(rng *rand.Rand, id, prefixNo int) *spec {
+	var s *spec
+	for {
+		s = gen(rng, id, prefixNo)
+		if s.Shape == "random" || s.Shape == "max-on-border" {
+			break
+		}
+	}
+	s.Shape = "flush-fails"
+	s.LoseFrom, s.LoseUntilError, s.ConflictKey, s.CommitFault = -1, false, "", ""
+	if s.CommitCtx == 3 {
+		s.CommitCtx = 1
+	}
+	s.End = []string{"commit", "rollback"}[rng.Intn(2)]
+	ka, kb := s.Keys[rng.Intn(len(s.Keys))], s.Keys[rng.Intn(len(s.Keys))]
+	pre := []step{{Op: "set", Key: ka, Val: fmt.Sprintf("v%d.f1", id)}, {Op: "flush", Force: true}}
+	if rng.Intn(3) == 0 {
+		pre = append(pre, step{Op: "get", Key: ka})
+	}
+	pre = append(pre, step{Op: "set", Key: kb, Val: fmt.Sprintf("v%d.f2", id)}, step{Op: "flush", Force: rng.Intn(4) != 0},
+		step{Op: "set", Key: ka, Val: fmt.Sprintf("v%d.f3", id)}, step{Op: "flush", Force: true})
+	if rng.Intn(2) == 0 {
+		s.ConflictKey = ka
+	} else {
+		s.LoseFrom = 0
+		s.LoseUntilError = true
+	}
+	if rng.Intn(3) == 0 {
+		// two good generations first
+		pre = append([]step{{Op: "set", Key: kb, Val: fmt.Sprintf("v%d.f0", id)}, {Op: "flush", Force: true}, {Op: "flushwait"}}, pre...)
+		if s.LoseFrom == 0 {
+			s.LoseFrom = 1 + rng.Intn(2)
+		}
+	}
+	s.Steps = append(pre, s.Steps...)
+	return s
+}
+
+// afterFlushErr: every second transaction waits once more (FlushWait) after it has been told that a flush failed,
+// before it commits or rolls back.  Derived from the id, not drawn: the generated programs do not depend on it.
+func afterFlushErr(id int) string {
+	if id%2 == 1 {
+		return "flushwait"
+	}
+	return ""
 }
 
 // genCommitFault gives two fifths of the committing transactions a failure in the commit phase.
@@ -777,6 +838,11 @@ type caseRec struct {
 	latest    map[string]mval
 	flushErr  string // first error reported by Flush/FlushWait to the driver
 	aborted   string // driver could not finish the case (watchdog)
+	// blocked: the call that did not return while nothing was in flight (decided by the caller after a re-run)
+	blocked      string
+	blockedState map[string]any
+	flushErrBy   string         // flush | flushwait: the call that reported the flush error
+	afterErr     map[string]int // blocking calls made after the flush error had been reported
 	plan      *plan
 	faults    map[string]int
 	reads     map[string]int
@@ -793,6 +859,45 @@ type caseRec struct {
 
 const grace = 3 * time.Millisecond
 
+// quietWindow: how long a blocked call is watched with nothing in flight before the case is run again alone
+// (with ten times this window).
+const quietWindow = 4 * time.Second
+
+var (
+	blockedMu   sync.Mutex
+	blockedSigs = map[string]bool{} // blocked states reported in this run, by call
+	isoReruns   int
+)
+
+// housekeeping: RPCs that are sent periodically by background loops (the store's safe-ts updater; a ttl manager's
+// heart beat and the fire-and-forget status broadcast that follows it) and whose results no call of the
+// application waits for.
+func housekeeping(cmd tikvrpc.CmdType) bool {
+	return cmd == tikvrpc.CmdTxnHeartBeat || cmd == tikvrpc.CmdStoreSafeTS || cmd == tikvrpc.CmdBroadcastTxnStatus
+}
+
+func blockedEstablished(call string) bool {
+	blockedMu.Lock()
+	defer blockedMu.Unlock()
+	return blockedSigs[call]
+}
+
+// goroutinesOfTxn returns the stacks of the goroutines that are inside a transaction's end or its pipelined buffer.
+func goroutinesOfTxn() []string {
+	buf := make([]byte, 4<<20)
+	buf = buf[:runtime.Stack(buf, true)]
+	var out []string
+	for _, g := range strings.Split(string(buf), "\n\n") {
+		if (strings.Contains(g, "PipelinedMemDB") || strings.Contains(g, "KVTxn).Rollback") || strings.Contains(g, "KVTxn).Commit")) && len(out) < 8 {
+			if len(g) > 2500 {
+				g = g[:2500]
+			}
+			out = append(out, g)
+		}
+	}
+	return out
+}
+
 type viol struct {
 	sig, msg string
 	detail   map[string]any
@@ -800,8 +905,8 @@ type viol struct {
 
 // runCase drives one pipelined transaction; violations of the read/error oracles are returned at once,
 // the wire and truth oracles run after the universe has drained.
-func runCase(u *uni.Universe, rt *router, c, c2 *uni.ClientStore, s *spec) (rec *caseRec, vs []viol) {
-	rec = &caseRec{s: s, latest: map[string]mval{}, reads: map[string]int{}, ctxKinds: map[string]int{}}
+func runCase(u *uni.Universe, rt *router, c, c2 *uni.ClientStore, s *spec, iso bool) (rec *caseRec, vs []viol) {
+	rec = &caseRec{s: s, latest: map[string]mval{}, reads: map[string]int{}, ctxKinds: map[string]int{}, afterErr: map[string]int{}}
 	ctx := context.Background()
 	addViol := func(step int, sig, format string, a ...any) {
 		vs = append(vs, viol{sig: sig, msg: fmt.Sprintf("case %d (%s) step %d: ", s.ID, s.Shape, step) + fmt.Sprintf(format, a...),
@@ -874,8 +979,43 @@ func runCase(u *uni.Universe, rt *router, c, c2 *uni.ClientStore, s *spec) (rec 
 		}
 		return mval{}, "snapshot"
 	}
+	// activity: the driver's bookkeeping over the RPC log since the case began - RPCs of the client under test
+	// (housekeeping aside) sent so far, and Flush RPCs of this transaction entered / left.
+	logFrom := u.Log.Len()
+	activity := func() (sent, flushEntered, flushLeft int) {
+		for _, cl := range u.Log.CallsFrom(logFrom) {
+			if cl.Client != c.ID || housekeeping(cl.Cmd) {
+				continue
+			}
+			sent++
+			if cl.Cmd == tikvrpc.CmdFlush && cl.StartTS == rec.startTS {
+				flushEntered++
+				if cl.RetSeq != 0 {
+					flushLeft++
+				}
+			}
+		}
+		return
+	}
+	lastCalls := func() (out []string) {
+		cs := u.Log.CallsFrom(logFrom)
+		for i := len(cs) - 1; i >= 0 && len(out) < 8; i-- {
+			if housekeeping(cs[i].Cmd) {
+				continue
+			}
+			out = append(out, fmt.Sprintf("#%d c%d %s ts=%d ret=%d", cs[i].Seq, cs[i].Client, cs[i].Cmd, cs[i].StartTS, cs[i].RetSeq))
+		}
+		return
+	}
 	// blocking runs a call that may wait for a flush; held Flush RPCs are released when it does not return by itself.
-	blocking := func(call func()) bool {
+	//
+	// Bounded progress: when the call has not returned although every hold has been released, no RPC of the
+	// client is in flight and none has been sent for a whole window, nothing is left that could make it return.
+	// The first sighting only makes the caller run the case again alone with a ten-fold window (iso).
+	blocking := func(name string, call func()) bool {
+		if rec.flushErr != "" {
+			rec.afterErr[name]++
+		}
 		done := make(chan struct{})
 		go func() { defer close(done); call() }()
 		select {
@@ -885,13 +1025,43 @@ func runCase(u *uni.Universe, rt *router, c, c2 *uni.ClientStore, s *spec) (rec 
 		}
 		// the call waits: for a flush whose RPC is held, or for RPCs it sends itself (they must not be held either)
 		rec.heldReleasedByWait += p.releaseAll(true)
-		select {
-		case <-done:
-			p.endRelease()
-			return true
-		case <-time.After(90 * time.Second):
-			rec.aborted = "a blocking call did not return within 90 s after every held Flush RPC was released (watchdog)"
-			return false
+		window := quietWindow
+		switch {
+		case iso:
+			window *= 10
+		case blockedEstablished(name):
+			window /= 10 // judged already in this run: do not spend the window on every case that gets there
+		}
+		start := time.Now()
+		var quietSince time.Time
+		lastSent := -1
+		for {
+			select {
+			case <-done:
+				p.endRelease()
+				return true
+			case <-time.After(50 * time.Millisecond):
+			}
+			sent, fe, fl := activity()
+			if c.Net.Inflight() == 0 && fe == fl && sent == lastSent && !p.anyHeld() {
+				if quietSince.IsZero() {
+					quietSince = time.Now()
+				}
+			} else {
+				quietSince = time.Time{}
+			}
+			lastSent = sent
+			if !quietSince.IsZero() && time.Since(quietSince) >= window {
+				rec.blocked = name
+				rec.blockedState = map[string]any{"call": name, "rpcs_of_the_client_in_flight": 0, "flush_rpcs_of_the_txn_entered": fe, "flush_rpcs_of_the_txn_left": fl, "injected_holds_open": 0,
+					"rpcs_sent_during_window": 0, "window": window.String(), "blocked_for": time.Since(start).String(), "flush_error_reported_before": rec.flushErr, "reported_by": rec.flushErrBy, "goroutines": goroutinesOfTxn()}
+				rec.aborted = fmt.Sprintf("%s has not returned for %v although every held Flush RPC was released, no RPC of the client is in flight (Flush RPCs of the transaction entered %d, left %d) and none was sent for %v", name, time.Since(start).Round(time.Millisecond), fe, fl, window)
+				return false
+			}
+			if time.Since(start) > 90*time.Second+10*window {
+				rec.aborted = fmt.Sprintf("a blocking call (%s) did not return within 90 s after every held Flush RPC was released (watchdog); at that time: RPCs of the client in flight %d, sent since the case began %d, Flush RPCs of the transaction entered %d left %d, holds open %v; last RPCs %v", name, c.Net.Inflight(), sent, fe, fl, p.anyHeld(), lastCalls())
+				return false
+			}
 		}
 	}
 	expectRead := func(k string) (want string, present bool, tier string) {
@@ -988,11 +1158,12 @@ loop:
 		case "flush":
 			var trig bool
 			var ferr error
-			if !blocking(func() { trig, ferr = txn.GetMemBuffer().Flush(st.Force) }) {
+			if !blocking("flush", func() { trig, ferr = txn.GetMemBuffer().Flush(st.Force) }) {
 				return
 			}
 			if ferr != nil {
 				rec.flushErr = fmt.Sprintf("%T: %v", ferr, ferr)
+				rec.flushErrBy = "flush"
 				rec.shape = append(rec.shape, "flush:error")
 				break loop
 			}
@@ -1008,11 +1179,12 @@ loop:
 			rec.shape = append(rec.shape, fmt.Sprintf("flush:%s", map[bool]string{true: "force", false: "threshold"}[st.Force]))
 		case "flushwait":
 			var ferr error
-			if !blocking(func() { ferr = txn.GetMemBuffer().FlushWait() }) {
+			if !blocking("flushwait", func() { ferr = txn.GetMemBuffer().FlushWait() }) {
 				return
 			}
 			if ferr != nil {
 				rec.flushErr = fmt.Sprintf("%T: %v", ferr, ferr)
+				rec.flushErrBy = "flushwait"
 				rec.shape = append(rec.shape, "flushwait:error")
 				break loop
 			}
@@ -1026,6 +1198,13 @@ loop:
 		p.mu.Lock()
 		p.loseOver = true
 		p.mu.Unlock()
+	}
+	if rec.flushErr != "" && s.AfterFlushErr == "flushwait" {
+		// the application waits once more before it ends the transaction (its result does not matter any more)
+		if !blocking("flushwait", func() { _ = txn.GetMemBuffer().FlushWait() }) {
+			return
+		}
+		rec.shape = append(rec.shape, "flushwait:after-error")
 	}
 	// end of the transaction
 	rec.ended = s.End
@@ -1045,7 +1224,7 @@ loop:
 			p.cancelAtCommit = done
 			p.mu.Unlock()
 		}
-		ok := blocking(func() { cerr = txn.Commit(cctx); done() })
+		ok := blocking("commit", func() { cerr = txn.Commit(cctx); done() })
 		rec.ctxKinds["commit:"+ctxKindNames[s.CommitCtx]]++
 		if s.CommitFault == "failpoint" {
 			_ = failpoint.Disable("tikvclient/pipelinedCommitFail")
@@ -1075,7 +1254,7 @@ loop:
 		rec.shape = append(rec.shape, fmt.Sprintf("commit:ok=%v", cerr == nil))
 	} else {
 		var rerr error
-		if !blocking(func() { rerr = txn.Rollback() }) {
+		if !blocking("rollback", func() { rerr = txn.Rollback() }) {
 			return
 		}
 		if rerr != nil {
@@ -1508,6 +1687,30 @@ func failureFreeEnd(rec *caseRec) bool {
 	return true
 }
 
+// rerunIsolated runs one case alone in a fresh universe with the ten-fold observation window.
+func rerunIsolated(s *spec) (*caseRec, error) {
+	u, err := uni.New(uni.Uni, 1)
+	if err != nil {
+		return nil, err
+	}
+	defer u.Close()
+	c, err := u.NewClient()
+	if err != nil {
+		return nil, err
+	}
+	c2, err := u.NewClient()
+	if err != nil {
+		return nil, err
+	}
+	rt := &router{plans: map[uint64]*plan{}}
+	c.Net.SetDecider(rt.decide)
+	rec, _ := runCase(u, rt, c, c2, s, true)
+	if s.CommitFault == "failpoint" {
+		_ = failpoint.Disable("tikvclient/pipelinedCommitFail")
+	}
+	return rec, nil
+}
+
 func runUniverse(t *testing.T, r, ar, lr *vrep.Report, rng *rand.Rand, uniNo, nCases int, firstID int) {
 	violate := func(sig, msg string, detail any) {
 		r.Violate("e2e:"+sig, msg, detail)
@@ -1536,11 +1739,58 @@ func runUniverse(t *testing.T, r, ar, lr *vrep.Report, rng *rand.Rand, uniNo, nC
 	prefixes := rng.Perm(nCases)
 	var recs []*caseRec
 	t0 := time.Now()
-	for i := 0; i < nCases; i++ {
-		s := gen(rng, firstID+i, prefixes[i])
-		rec, vs := runCase(u, rt, c, c2, s)
+	nExtra := vrep.Pick(60, 120)
+	ffRng := vrep.Rand(fmt.Sprintf("c16-e2e-flush-fails-%d", uniNo))
+	for i := 0; i < nCases+nExtra; i++ {
+		var s *spec
+		if i < nCases {
+			s = gen(rng, firstID+i, prefixes[i])
+		} else {
+			s = genFlushFails(ffRng, 100000+uniNo*1000+(i-nCases), i)
+		}
+		s.AfterFlushErr = afterFlushErr(s.ID)
+		rec, vs := runCase(u, rt, c, c2, s, false)
 		for _, v := range vs {
 			violate(v.sig, v.msg, v.detail)
+		}
+		for k, n := range rec.afterErr {
+			r.Count("call_after_flush_error_reported_by:"+rec.flushErrBy+":"+k, n)
+			r.Eval(n)
+		}
+		if rec.blocked != "" {
+			// The transaction is stuck in a state in which nothing can wake it up; its goroutine is abandoned, the
+			// other cases go on (its keys are its own).  It counts once it is blocked again, alone, ten times as long.
+			r.Count("cases_blocked_with_nothing_in_flight", 1)
+			sig := "blocked:" + rec.blocked + ":no-flush-in-flight"
+			blockedMu.Lock()
+			known := blockedSigs[rec.blocked]
+			again := !known && isoReruns < 3
+			if again {
+				isoReruns++
+			}
+			blockedMu.Unlock()
+			switch {
+			case known:
+				r.Count("cases_blocked_in_a_state_already_reported", 1)
+			case !again:
+				r.Inconc("case %d: %s (not run again: three re-runs spent)", s.ID, rec.aborted)
+			default:
+				rec2, err := rerunIsolated(s)
+				switch {
+				case err != nil:
+					r.Inconc("case %d: %s; re-run in isolation failed: %v", s.ID, rec.aborted, err)
+				case rec2.blocked == rec.blocked:
+					blockedMu.Lock()
+					blockedSigs[rec.blocked] = true
+					blockedMu.Unlock()
+					violate(sig, fmt.Sprintf("case %d (%s, end=%s): %s; run again alone in a fresh universe: %s", s.ID, s.Shape, s.End, rec.aborted, rec2.aborted),
+						map[string]any{"spec": s, "steps": s.stepStrings(), "start_ts": rec.startTS, "observed": rec.shape, "observed_in_isolation": rec2.shape,
+							"flush_error": rec.flushErr, "blocked_state": rec.blockedState, "blocked_state_in_isolation": rec2.blockedState})
+				default:
+					r.Inconc("case %d: %s; not reproduced when run again alone (there: blocked=%q aborted=%q trace %v)", s.ID, rec.aborted, rec2.blocked, rec2.aborted, rec2.shape)
+				}
+			}
+			continue
 		}
 		if rec.aborted != "" {
 			r.Inconc("case %d: %s", s.ID, rec.aborted)
@@ -1822,7 +2072,7 @@ func countCmd(calls []uni.Call, cmd tikvrpc.CmdType) int {
 }
 
 func TestVerifC16(t *testing.T) {
-	r := vrep.New("C16", "c16-e2e", "generated pipelined transactions (set/delete/get/batch-get/flush force|threshold/flush-wait, then Commit or Rollback; flush thresholds lowered through the pipelinedMemDB* failpoints; flush and resolve concurrency 1|2|8) on unistore, each on its own key prefix with its own region layout (random borders, largest written key first in its region, a single flushed key, committed old values under keys that are overwritten/deleted, flushed and waited for and then read by one BatchGet and by Get while the region is split between them - by the driver behind the client's region cache or exactly at the BufferBatchGet RPC) and a fault plan on its BufferBatchGet RPCs (split between two requested keys, NotLeader, ServerIsBusy, EpochNotMatch) and on its Flush RPCs (held in flight while the program goes on, NotLeader, ServerIsBusy, region split at the RPC, lost request, lost response, every request lost from some point on, conflicting committed write; NotLeader/split on a ResolveLock RPC; commit-phase failures: primary lock rolled back by another client's resolver right before the Commit RPC, failpoint pipelinedCommitFail, NotLeader/ServerIsBusy/lost request on the Commit RPC, lost response with the caller's context cancelled; every Get/BatchGet/Commit gets context.Background() | a context cancelled right after the call returned | a context with values and a far deadline cancelled after return, Commit also a context cancelled when its Commit request is sent); monitors: reads vs the driver's model by tier, wire (mutations per generation, completeness of successful flushes, increasing generations, one generation in flight), Commit fails after a reported flush error, MVCC truth after drain (no lock) and again after ttl expiry + observer reads (latest writes at the primary's commit ts / nothing; undetermined = all or nothing), owner's ResolveLock requests carry commit_version 0 unless its primary Commit succeeded; distinct = distinct (shape, end, outcome, operation/tier trace) of transactions that flushed at least once")
+	r := vrep.New("C16", "c16-e2e", "generated pipelined transactions (set/delete/get/batch-get/flush force|threshold/flush-wait, then Commit or Rollback; flush thresholds lowered through the pipelinedMemDB* failpoints; flush and resolve concurrency 1|2|8) on unistore, each on its own key prefix with its own region layout (random borders, largest written key first in its region, a single flushed key, committed old values under keys that are overwritten/deleted, flushed and waited for and then read by one BatchGet and by Get while the region is split between them - by the driver behind the client's region cache or exactly at the BufferBatchGet RPC) and a fault plan on its BufferBatchGet RPCs (split between two requested keys, NotLeader, ServerIsBusy, EpochNotMatch) and on its Flush RPCs (held in flight while the program goes on, NotLeader, ServerIsBusy, region split at the RPC, lost request, lost response, every request lost from some point on, conflicting committed write; NotLeader/split on a ResolveLock RPC; commit-phase failures: primary lock rolled back by another client's resolver right before the Commit RPC, failpoint pipelinedCommitFail, NotLeader/ServerIsBusy/lost request on the Commit RPC, lost response with the caller's context cancelled; per universe 60 (thorough 120) more transactions whose first of several back-to-back forced flushes fails in the background - conflicting committed write, or every Flush RPC lost until the error is reported - so that Flush itself reports the failure, after which every second transaction calls FlushWait once more before it commits or rolls back; every Get/BatchGet/Commit gets context.Background() | a context cancelled right after the call returned | a context with values and a far deadline cancelled after return, Commit also a context cancelled when its Commit request is sent); monitors: bounded progress (a Flush/FlushWait/Commit/Rollback that stays blocked while every hold is released, no RPC of the client is in flight and none is sent for 4 s is run again alone in a fresh universe; blocked again over 40 s in the same call = violation, goroutines in the replay), reads vs the driver's model by tier, wire (mutations per generation, completeness of successful flushes, increasing generations, one generation in flight), Commit fails after a reported flush error, MVCC truth after drain (no lock) and again after ttl expiry + observer reads (latest writes at the primary's commit ts / nothing; undetermined = all or nothing), owner's ResolveLock requests carry commit_version 0 unless its primary Commit succeeded; distinct = distinct (shape, end, outcome, operation/tier trace) of transactions that flushed at least once")
 	defer r.Finish(t)
 	ar := vrep.New("C03", "c03-on-c16", "truthfulness of Commit's answer for the pipelined commit mode, judged on the C16 e2e executions: every Commit of a generated pipelined transaction on unistore (flush faults, write conflicts; commit-phase faults: primary lock rolled back by another client's resolver right before the Commit RPC, failpoint pipelinedCommitFail after the commit ts was fetched, NotLeader/ServerIsBusy/lost request on the Commit RPC, lost response with the caller's context cancelled, context cancelled when the Commit request is sent; contexts cancelled after return) is compared, after drain, clock past every ttl and observer reads, with the MVCC truth: nil => every written key carries its latest write at the primary's single commit ts; definite error => no version of the transaction exists and no observer ever sees its values; undetermined only when a commit-point request was lost or cancelled in flight; a Commit request that stayed unanswered is never reported as a plain error; distinct = distinct (commit fault kind, context kind, answer class, outcome in the truth)")
 	defer ar.Finish(t)
@@ -1875,4 +2125,9 @@ func TestVerifC16(t *testing.T) {
 	r.Floor("commit_failed", 3)
 	r.Floor("fault:resolve:split-at-rpc", 5)
 	r.Floor("fault:flush:lost-for-good", 50)
+	// the family "the application goes on after Flush told it that an earlier flush failed"
+	r.Floor("programs:flush-fails", 80)
+	r.Floor("call_after_flush_error_reported_by:flush:commit", 30)
+	r.Floor("call_after_flush_error_reported_by:flush:rollback", 30)
+	r.Floor("call_after_flush_error_reported_by:flush:flushwait", 30)
 }
